@@ -271,3 +271,44 @@ def real_replay_stream(parts_abs, cuts_abs, threshold_abs, claim_lengths_abs, tr
     except Exception as e:
         signal.alarm(0)
         return got, False, repr(e), stream, cuts, T, log, buf
+
+
+def validate_xml_facts():
+    """F1-F6 of DESIGN 4.2 against real expat, on every message kind serialised
+    by the library and on all short strings over the markup alphabet."""
+    import itertools
+    import xml.etree.ElementTree as RET
+    from props.routerlib import make_message
+    from props.common import MSG_SPECS
+
+    def wf(t):
+        try:
+            RET.fromstring(t)
+            return True
+        except RET.ParseError:
+            return False
+    msgs = [RET.tostring(make_message(k, "DEV").to_xml()).decode() for k in MSG_SPECS]
+    bad = []
+    n = 0
+    for m in msgs:
+        n += 1
+        if not wf(m):
+            bad.append(("serialised message not well-formed", m))
+        cuts = [i + 1 for i, ch in enumerate(m[:-1]) if ch == ">"]
+        if any(wf(m[:c]) for c in cuts):
+            bad.append(("F1 strict prefix accepted", m))
+        if wf(m + "x") or wf(m + "<"):
+            bad.append(("F2 text after the root accepted", m))
+        if not wf("\n  " + m) or not wf(m + "\n"):
+            bad.append(("blanks around the root rejected", m))
+        if wf('\n<?xml version="1.0"?>\n' + m):
+            bad.append(("declaration after a blank accepted", m))
+        if m.endswith(">>"):
+            bad.append(("F4 ends in >>", m))
+    for L in (1, 2, 3):
+        for t in itertools.product("<>a/ ?", repeat=L):
+            n += 1
+            if wf("".join(t)):
+                bad.append(("F5 short document", "".join(t)))
+    return [dict(what="XML facts F1/F2/F4/F5 and blank handling on real expat (21 message kinds, all strings < 4 over the markup alphabet)",
+                 cases=n, ok=not bad, detail=str(bad[:3]))]
